@@ -485,7 +485,7 @@ func c05Short(b []byte) string {
 func TestVerifC05Random(t *testing.T) {
 	m := vk.New(t, "C05", "seeded struct shapes (reflect.StructOf: leaf kinds, pointers, slices, maps, nested/embedded structs x optional/default/options/range/string/env/optional=dep) x documents: valid (must be accepted, equal to the generator's struct), one injected fault (required absent, null, out of range, not in options, numeric overflow: must be rejected), adversarial mutations (error or exact, never a panic); JSON vs block YAML of the same tree must agree; non-trivial = shape saw both an acceptance and a rejection")
 	defer m.Done()
-	n := vk.N(3000, 150000)
+	n := vk.N(5000, 120000)
 	for idx := 1; idx <= n; idx++ {
 		if !m.Only(idx) {
 			continue
@@ -502,7 +502,7 @@ func TestVerifC05Random(t *testing.T) {
 func TestVerifC05Race(t *testing.T) {
 	m := vk.New(t, "C05", "16 goroutines unmarshal valid JSON/YAML documents into shared, freshly generated shapes (global tag caches populated concurrently); every result audited; the race detector is the oracle for the caches")
 	defer m.Done()
-	rounds := vk.N(40, 1500)
+	rounds := vk.N(60, 1500)
 	const workers = 16
 	for round := 1; round <= rounds; round++ {
 		if !m.Only(round) {
